@@ -16,6 +16,7 @@
      r.ic         ode: [t0, u0 (seq)] ; nonstatio: u0 polynomials over x ; <<>> = none
      r.norm       [samples (rows over x), L] or <<>>
      r.bnd        per facet [kind, g (polys over border inputs), comp [lo, hi]] ; kind "none"
+     r.het        per parameter: <<>> or the polynomial h_k over (inputs, th) replacing it inside the equation
      r.obsd       [in (rows), val (rows), slice [lo, hi], etab (per parameter column or <<>>)] or <<>>
    Every value is an exact rational <<num, den>>. *)
 EXTENDS Operators
@@ -41,7 +42,12 @@ NetDx(r, k, j, in, th) == LET d == Eval(D(r.V[k], j), in) IN IF r.ot = "affine" 
 Weight(w, c) == IF Len(w) = 1 THEN w[1] ELSE w[c]
 
 (* ---- dynamic term: batch mean of the weighted squared residual ---- *)
-Residual(r, in, th) == LET u == NetAll(r, in, th) IN [c \in DOMAIN r.R |-> Eval(r.R[c], in \o u \o th)]
+(* heterogeneous parameters (C12): inside the equation ONLY, a declared parameter k is replaced by the value of its user
+   function h_k(point, params); undeclared parameters pass through unchanged; every OTHER term still sees the raw value *)
+HetParams(r, in, th) == [k \in DOMAIN th |-> IF r.het[k] = <<>> THEN th[k] ELSE Eval(r.het[k], in \o th)]
+Residual(r, in, th) == LET hp == HetParams(r, in, th)      \* the equation (and the network calls it makes) sees hp
+                           u == NetAll(r, in, hp) IN
+                       [c \in DOMAIN r.R |-> Eval(r.R[c], in \o u \o hp)]
 DynPoint(r, in, th, w) == LET res == Residual(r, in, th) IN SumSeq([c \in DOMAIN res |-> Weight(w, c) * res[c] * res[c]])
 Dyn(r) == IF r.R = <<>> THEN QI(0)
           ELSE QMean([i \in DOMAIN r.inside |-> QI(DynPoint(r, r.inside[i], ParamsRow(r.th, r.ptab, i), r.w.dyn))])
@@ -84,4 +90,30 @@ Bnd(r) == QSum([f \in DOMAIN r.bnd |-> IF r.bnd[f].kind = "none" THEN QI(0) ELSE
 
 Terms(r) == [dyn_loss |-> Dyn(r), initial_condition |-> IC(r), norm_loss |-> Norm(r), boundary_loss |-> Bnd(r), observations |-> Obs(r)]
 Total(r) == LET t == Terms(r) IN QSum(<<t.dyn_loss, t.initial_condition, t.norm_loss, t.boundary_loss, t.observations>>)
+
+(* ---------------- systems (C13) ----------------
+   r.nets[u]  = [name, V (one polynomial, one output), ic, bnd, obsd]   the unknowns, in key order
+   r.eqs[e]   = [name, R (polynomial over (inputs, u_1..u_n, th)), w]   the equations, with their weight
+   r.wu[u]    = [ic, norm, bnd, obs] weights of unknown u
+   The equation e is called with (t, x, all networks, all parameters); every other term is the sum over unknowns of
+   the single-network term (weight 1 inside) times that unknown's weight. *)
+AllU(r, in) == [u \in DOMAIN r.nets |-> Eval(r.nets[u].V, in)]
+SysRes(r, e, in, th) == Eval(r.eqs[e].R, in \o AllU(r, in) \o th)
+SysDyn(r) == QSum([e \in DOMAIN r.eqs |->
+                 QMul(QI(r.eqs[e].w), QMean([i \in DOMAIN r.inside |->
+                     LET v == SysRes(r, e, r.inside[i], ParamsRow(r.th, r.ptab, i)) IN QI(v * v)]))])
+One == <<1>>
+SubRec(r, u) == [lkind |-> r.lkind, dim |-> r.dim, V |-> <<r.nets[u].V>>, ot |-> "none", sol |-> <<1, 1>>, th |-> r.th, ptab |-> r.ptab,
+                 R |-> <<>>, het |-> [k \in DOMAIN r.th |-> <<>>], w |-> [dyn |-> One, ic |-> One, norm |-> One, bnd |-> One, obs |-> One],
+                 inside |-> r.inside, border |-> r.border, ic |-> r.nets[u].ic, norm |-> [on |-> FALSE],
+                 bnd |-> r.nets[u].bnd, obsd |-> r.nets[u].obsd]
+SysTerms(r) ==
+    [dyn_loss |-> SysDyn(r),
+     initial_condition |-> QSum([u \in DOMAIN r.nets |-> QMul(QI(r.wu[u].ic), IC(SubRec(r, u)))]),
+     norm_loss |-> QI(0),
+     boundary_loss |-> QSum([u \in DOMAIN r.nets |-> QMul(QI(r.wu[u].bnd), Bnd(SubRec(r, u)))]),
+     observations |-> QSum([u \in DOMAIN r.nets |-> QMul(QI(r.wu[u].obs), Obs(SubRec(r, u)))])]
+(* a one-equation one-unknown system is the plain loss *)
+PlainOf(r) == [SubRec(r, 1) EXCEPT !.R = <<r.eqs[1].R>>,
+                                   !.w = [dyn |-> <<r.eqs[1].w>>, ic |-> <<r.wu[1].ic>>, norm |-> One, bnd |-> <<r.wu[1].bnd>>, obs |-> <<r.wu[1].obs>>]]
 =============================================================================
